@@ -560,9 +560,9 @@ MON = {
 
 BY_PROP = {
     "C01": ["audience"], "C02": ["ownership"], "C03": ["gate"], "C04": ["membership"],
-    "C05": ["nopanic"], "C06": ["cleanup"], "C07": ["admission"], "C08": ["membership"],
+    "C05": ["nopanic"], "C06": ["cleanup", "membership"], "C07": ["admission"], "C08": ["membership"],
     "C09": ["membership"], "C10": ["notice_silent"], "C11": ["opergrant"], "C12": ["hidden"],
-    "C13": ["reparse"], "C14": [], "C15": ["rename"], "C16": ["chanlife"], "C17": [], "C18": ["nopanic"],
+    "C13": ["reparse"], "C14": [], "C15": ["rename", "membership"], "C16": ["chanlife", "membership"], "C17": [], "C18": ["nopanic"],
     "C19": ["counters"], "C20": [],
 }
 
